@@ -193,7 +193,7 @@ def _run_once(binary, lines, scratch, timeout):
     if rc == 0 and re.search(r"\]\s*Panic:|^panic:|^fatal error:", err, re.M):
         rc = 1     # the process ended before the panicking goroutine reached its os.Exit
     results = {}
-    for l in out.splitlines():
+    for l in out.split("\n"):
         try:
             r = json.loads(l)
         except ValueError:
@@ -287,7 +287,7 @@ def run_model(schema_path, lines, timeout=1200):
     inp = "\n".join(json.dumps(l) for l in lines) + "\n"
     p = subprocess.run([model_binary(), schema_path], input=inp.encode(), stdout=subprocess.PIPE, stderr=subprocess.PIPE, timeout=timeout)
     results = {}
-    for l in p.stdout.decode("utf-8", "replace").splitlines():
+    for l in p.stdout.decode("utf-8", "replace").split("\n"):
         try:
             r = json.loads(l)
         except ValueError:
